@@ -137,7 +137,7 @@ func (h *Handler) handlePropfind(w http.ResponseWriter, r *http.Request) error {
 		}
 	} else {
 		var b [1]byte
-		if _, err := r.Body.Read(b[:]); err != io.EOF {
+		if n, err := r.Body.Read(b[:]); n > 0 || err != io.EOF {
 			return HTTPErrorf(http.StatusBadRequest, "webdav: unsupported request body")
 		}
 		propfind.AllProp = &struct{}{}
